@@ -104,7 +104,7 @@ def run(ctx):
     except Exception as ex:
         ctx.oblige("translator t_entropy", False, repr(ex))
     common.lean_obligations(ctx, ["Sympler.Entropy", "Props.C12"], ["Props.C12"], THEOREMS, MODULES)
-    n = 12 if not ctx.thorough else 120
+    n = 12 if not ctx.thorough else 400
     base = os.path.join(common.WORK, "c12-%d" % os.getpid())
     results = []
     metas = []
